@@ -5,7 +5,6 @@ YAML Path processor based on ruamel.yaml.
 Copyright 2018, 2019, 2020, 2021, 2022 William W. Kimball, Jr. MBA MSIS
 """
 from collections import OrderedDict
-from copy import copy
 from typing import Any, Dict, Generator, List, Tuple, Union
 
 from ruamel.yaml.compat import ordereddict as ryod
@@ -1702,8 +1701,14 @@ class Processor:
         for idx, key in rem_dels:
             if idx not in copied_idxs:
                 orig_nc = updated_coords[idx].deepest_node_coord
+                # A plain copy() of a ruamel.yaml Hash shares the record of
+                # which keys are its own (versus YAML Merge Key imports) with
+                # the original, so refill a new Hash instead.
+                node_copy = type(orig_nc.node)()
+                for copy_key, copy_val in orig_nc.node.items():
+                    node_copy[copy_key] = copy_val
                 updated_coords[idx] = NodeCoords(
-                    copy(orig_nc.node), orig_nc.parent, orig_nc.parentref,
+                    node_copy, orig_nc.parent, orig_nc.parentref,
                     orig_nc.path, orig_nc.ancestry, orig_nc.path_segment)
                 copied_idxs.append(idx)
             if key in updated_coords[idx].node:
